@@ -17,4 +17,5 @@ var Registry = map[string]func(args []string){
 	"wire-values": WireValues,
 	"wire-mutations": WireMutations,
 	"wire-case": WireCase,
+	"paths-jail": PathsJail,
 }
